@@ -3,7 +3,40 @@ HOOK_COMMITS = ["9fc63e5", "aa17adf", "587855e"]
 PENDING = "not yet claimed in this revision: model/theorems under construction (see DESIGN.md section 10 work order); will be claimed when its first theorem + correspondence + oracle are in place"
 NOT_APPLICABLE = {("C%02d" % i): PENDING for i in range(1, 21)}
 
+CONC_NOTE = ("Proved for all interleavings of the atomic steps of any number of threads (sequentially consistent). The Rust memory model enters only through the literal comparison of the orderings in the trace correspondence: "
+             "a weakened ordering is detected as a broken correspondence (… no-failing-input-found), it cannot be exhibited by an SC scheduler. ")
+
 META = {
+    "C01": dict(
+        text="Kernel-checked over the step machine of one shared cell (Conc.aStep; states reachable by ANY accepted item list = any threads, programs, schedules, spurious failures): cas_success_adds_delta (a successful compare-exchange found exactly the loaded value and adds exactly the thread's delta to the CURRENT value), "
+             "cas_failure_no_effect (a failed attempt changes nothing and is retried), get_returns_cell, lin_inv (the cell always holds the value of the latest committed write, for every accepted run). "
+             "Tie: real Counter / IntCounter / LocalCounter code on real threads under the deterministic scheduler; every observed trace must be an accepted run of the machine (kind, location, ordering, operands, result of every atomic operation), "
+             "and an independent linearizability search (Wing-Gong) checks results and final value against the sequential counter; counter-vector children via the cvec area.",
+        note=CONC_NOTE + "A whole-history 'each call commits exactly once' counting theorem is planned; today it is the per-step theorems + the linearizability oracle.",
+    ),
+    "C11": dict(
+        text="Kernel-checked over the same machine as C01: set_not_torn (set/reset is one store of one 64-bit pattern), sub_undoes_add_int (wrapping x + d - d = x), sub_is_add_neg (float sub applies +(-d) through the add loop), gauge_lin_inv. "
+             "Tie: real Gauge / IntGauge on real threads under the scheduler, traces replayed by the machine, linearizability search against the sequential gauge (integer gauges also at the ends of the i64 range).",
+        note=CONC_NOTE + "sub(x) undoes add(x) on f64 only up to rounding (modelled, not verified; runs use exactly representable amounts).",
+    ),
+    "C10": dict(
+        text="Kernel-checked over the vector machine (Conc.vStep; critical sections of the children lock as steps): recheck_keeps_inv (after a read-section miss the key is looked up again under the write lock: an existing child is returned, otherwise a fresh zero child is inserted; keys stay pairwise distinct), "
+             "filter_keeps_inv, inc_touches_only_its_child (handles stay usable and isolated), write_lock_exclusive. "
+             "Tie: real IntCounterVec on real threads under the scheduler; traces replayed by the machine; linearizability search against a map from label values to fresh children with per-child counters (a collect = key set + one value read per shown key); sequential histories via the vec area.",
+        note=CONC_NOTE + "A refinement theorem vec_linearizable over whole histories is planned; today: step theorems + invariant + oracle.",
+    ),
+    "C02": dict(
+        text="Kernel-checked (Prom/HP, ~1100 lines, core Lean only): inductive invariant of the hot/cold shard protocol over ANY number of in-flight observers, batch flushers and collectors; snapshot_is_prefix (every snapshot ever returned = count and every cell of exactly the observations claimed before that collector's flip), "
+             "collectors_exclusive, bucket_cell_counts / count_is_size / sum_cell_is_sum (cells = bucket counts, size and sum of the cut). "
+             "Tie: real observe / LocalHistogram::flush / collect / get_sample_* on real threads under the scheduler; every trace (all atomics of both shards, the lock, orderings) replayed by the executable machine Conc.hStep; oracle computed from the trace order on shard_and_count.",
+        note=CONC_NOTE + "The link HP.Step <-> Conc.hStep is by inspection (trusted); real-time statements (cut_complete / cut_exact) hold because a claim / flip is a step of its own call - the oracle checks them on every trace.",
+    ),
+    "C03": dict(
+        text="Kernel-checked (same model as C02): quiescent_total (with no collector active the counter equals everything claimed, and once in-flight observations published the hot shard holds exactly all observations - count and every cell), merge_carries_all (the drained shard is completely empty), "
+             "batch_atomic (a flushed batch is one claim step), collect_progress (a spinning collector whose cold shard received its publishes can step). "
+             "Tie: as C02, histories with up to 3 collections per collector and several collectors; final quiescent collect and get_sample_count/sum compared with all observations; a run that cannot finish is reported.",
+        note=CONC_NOTE + "snapshots_grow is validated by the oracle (claims before successive flips are prefixes of each other by construction of the trace order).",
+    ),
     "C17": dict(
         text="Kernel-checked panic-freedom of the panic-explicit model, for ALL arguments: checkAndAdjustP_no_panic (len()-1, buckets[i+1], last().unwrap(); uses the regenerated DEFAULT_BUCKETS != []), makeLabelPairsP_no_panic (label_values[i] in range; wrong cardinality is Err), "
              "desc_value_lookup_no_panic (the unwrap on the const-label lookup in Desc::new), first_special_is_boundary / escapeSliceP_no_panic (the byte index escape_string slices at is a UTF-8 character boundary whatever multi-byte characters precede it), "
